@@ -79,7 +79,8 @@ pub fn names() -> Vec<String> {
     let mut v = vec!["default".to_string()];
     for e in general() {
         // uniform maps: all general encoders but only three of the AAC flag sets (see `mixable`)
-        if !e.starts_with("aac") || ["aac:0x00", "aac:0x04", "aac:0x20"].contains(&e.as_str()) {
+        // (still true after the codec fixes: AAC rejects byte 255, rANS 4x8 order 1 blocks < 4 bytes)
+        if !e.starts_with("aac") || ["aac:0x00", "aac:0x04", "aac:0x20", "aac:0x80", "aac:0xc0"].contains(&e.as_str()) {
             v.push(e);
         }
     }
